@@ -1,0 +1,21 @@
+// Copyright 2024 The Go Authors. All rights reserved.
+// Use of this source code is governed by a BSD-style
+// license that can be found in the LICENSE file.
+
+//go:build !verif
+
+package sumdb
+
+import "sync"
+
+// Simulation hooks: no-ops unless built with the "verif" tag
+// (see simhook_verif.go).
+
+func simLock(mu *sync.Mutex, label string) {}
+func simOnceEnter(o *sync.Once)            {}
+func simOnceExit(o *sync.Once)             {}
+func simWait()                             {}
+func simSpawn() func() func()              { return simNopEnter }
+
+func simNopEnter() func() { return simNopExit }
+func simNopExit()         {}
